@@ -54,6 +54,12 @@ MUTANTS = [
         "reverts fix 8e58e91 (F2): shallow copy of qualifiers in _merge_qualifiers",
     ),
     (
+        "c10_overlapping_blocks_cached_codon_path_again", "C10", G + "gene/cds.py",
+        "            and not self.chunk_relative_location.is_overlapping\n",
+        "",
+        "reverts fix a9883a3: cached codon locations re-used for a CDS with overlapping blocks (codon spanning the overlap in genome order)",
+    ),
+    (
         "c10_extract_sequence_str_again", "C10", G + "gene/cds.py",
         "            return Sequence(seq, Alphabet.NT_EXTENDED, validate_alphabet=False)\n        if self.num_blocks > 1:",
         "            return seq\n        if self.num_blocks > 1:",
